@@ -642,3 +642,14 @@ func (m *Monitor) Holds(p int) bool {
 	}
 	return false
 }
+
+// NoCallState reports whether the model holds no call at all (not even calls
+// abandoned by a departed caller).
+func (m *Monitor) NoCallState() bool {
+	for _, rl := range m.Realms {
+		if len(rl.Calls) > 0 {
+			return false
+		}
+	}
+	return true
+}
